@@ -36,6 +36,23 @@ func UintW(bits uint) *rapid.Generator[uint64] {
 	return rapid.OneOf(rapid.Uint64Range(0, max), rapid.SampledFrom(e))
 }
 
+// enumerated 8-bit fields: the values the specifications define for them are what peers send and what code
+// branches on, so they are drawn with weight next to the full range.
+var u8Enums = map[string][]uint64{
+	"DataCoding": {0, 1, 3, 4, 8, 0x0f, 0xf0, 0xf5}, "MsgFmt": {0, 3, 4, 8, 9, 15}, "MsgFormat": {0, 3, 4, 8, 15}, "MessageCoding": {0, 3, 4, 8, 15},
+	"ESMClass":           {0x00, 0x01, 0x02, 0x03, 0x04, 0x08, 0x10, 0x20, 0x40, 0x80, 0x44, 0x48, 0xc0, 0x24, 0x3c, 0x43},
+	"RegisteredDelivery": {0, 1, 2, 0x10, 0x11}, "ProtocolID": {0, 0x3f, 0x7f}, "Version": {0x20, 0x21, 0x30, 0x12, 0x13}, "InterfaceVersion": {0x33, 0x34, 0x50},
+}
+
+// U8For: generator for the named 8-bit field.
+func U8For(name string) *rapid.Generator[uint64] {
+	small := rapid.SampledFrom([]uint64{0, 1, 2, 3, 4, 5, 8, 9, 15})
+	if e, ok := u8Enums[name]; ok {
+		return rapid.OneOf(UintW(8), rapid.SampledFrom(e), rapid.SampledFrom(e), small)
+	}
+	return rapid.OneOf(UintW(8), UintW(8), small)
+}
+
 // fillBytes derives n octets from a seed; lo..255 is the value range.
 func fillBytes(seed uint64, n int, lo int) []byte {
 	s := vk.SplitMix(seed)
@@ -161,6 +178,14 @@ func BodyBytes(t *rapid.T, n int, label string) []byte {
 		for i := range b {
 			b[i] = 0x20 + b[i]%0x5f
 		}
+	case 4:
+		// text as the encoders of other stacks emit it: byte-order mark in front (UTF-16 BE/LE, UTF-8)
+		copy(b, [][]byte{{0xfe, 0xff}, {0xff, 0xfe}, {0xef, 0xbb, 0xbf}}[rapid.IntRange(0, 2).Draw(t, label+"bom")])
+	case 5:
+		// UCS-2 text: zero high octets
+		for i := 0; i+1 < len(b); i += 2 {
+			b[i], b[i+1] = 0, 0x20+b[i+1]%0x5f
+		}
 	}
 	return b
 }
@@ -198,6 +223,61 @@ var NamedTags = []uint16{
 	0x0000, 0x00FF, 0x0100, 0x7FFF, 0x8000, 0xFFFE, 0xFFFF,
 }
 
+// SpecLen: the value sizes the specifications prescribe for the named tags (SMPP 3.4 section 5.3.2.x, SMGP
+// 3.0.3 section 6.3.x): {min, max} octets. Real peers send these tags with these sizes, and code that
+// interprets a parameter does so at its specified size. The two tag spaces overlap (0x0001..0x0012 are SMGP
+// tags), which is harmless: both containers are generic.
+var SpecLen = map[uint16][2]int{
+	// SMPP
+	0x0005: {1, 1}, 0x0006: {1, 1}, 0x0007: {1, 1}, 0x0008: {2, 2}, 0x000D: {1, 1}, 0x000E: {1, 1}, 0x000F: {1, 1}, 0x0010: {1, 1},
+	0x0017: {4, 4}, 0x0019: {1, 1}, 0x001D: {1, 256}, 0x001E: {1, 65}, 0x0030: {1, 1}, 0x0201: {1, 1}, 0x0202: {2, 23}, 0x0203: {2, 23},
+	0x0204: {2, 2}, 0x0205: {1, 1}, 0x020A: {2, 2}, 0x020B: {2, 2}, 0x020C: {2, 2}, 0x020D: {1, 1}, 0x020E: {1, 1}, 0x020F: {1, 1},
+	0x0210: {1, 1}, 0x0302: {1, 1}, 0x0303: {1, 65}, 0x0304: {1, 1}, 0x0381: {4, 19}, 0x0420: {1, 1}, 0x0421: {1, 1}, 0x0422: {1, 1},
+	0x0423: {3, 3}, 0x0424: {1, 300}, 0x0425: {1, 1}, 0x0426: {1, 1}, 0x0427: {1, 1}, 0x0501: {1, 1}, 0x1201: {1, 1}, 0x1203: {2, 2},
+	0x1204: {1, 1}, 0x130C: {0, 0}, 0x1380: {1, 1}, 0x1381: {2, 2},
+	// SMGP
+	0x0001: {1, 1}, 0x0002: {1, 1}, 0x0003: {20, 20}, 0x0004: {1, 1}, 0x0009: {1, 1}, 0x000A: {1, 1}, 0x000B: {1, 1}, 0x000C: {1, 1},
+	0x0011: {1, 1}, 0x0012: {21, 21}, 0x0013: {1, 1},
+}
+
+// SpecValue draws a value of the size the specification prescribes for the tag, with the contents such a
+// parameter carries in practice: small numbers (0, 1, 2, 255) for the numeric ones, text padded with NULs
+// (or not) for the fixed-width text ones. ok=false when the tag has no prescribed size.
+func SpecValue(t *rapid.T, tag uint16, label string) ([]byte, bool) {
+	r, ok := SpecLen[tag]
+	if !ok {
+		return nil, false
+	}
+	n := r[0]
+	if r[1] > r[0] {
+		n = rapid.OneOf(rapid.IntRange(r[0], r[1]), rapid.SampledFrom([]int{r[0], r[1]})).Draw(t, label+"speclen")
+	}
+	b := make([]byte, n)
+	switch {
+	case n <= 4:
+		// big-endian small number, or arbitrary
+		switch rapid.IntRange(0, 3).Draw(t, label+"specnum") {
+		case 0:
+			if n > 0 {
+				b[n-1] = rapid.SampledFrom([]byte{0, 1, 1, 2, 3, 255}).Draw(t, label+"specsmall")
+			}
+		case 1:
+			for i := range b {
+				b[i] = rapid.SampledFrom([]byte{0, 1, 0xff}).Draw(t, fmt.Sprintf("%sspecb%d", label, i))
+			}
+		default:
+			copy(b, rapid.SliceOfN(rapid.Byte(), n, n).Draw(t, label+"specraw"))
+		}
+	default:
+		// text: digits/letters, then NUL padding of a drawn length (possibly none)
+		used := rapid.OneOf(rapid.IntRange(0, n), rapid.SampledFrom([]int{n, n - 1, 1})).Draw(t, label+"specused")
+		for i := 0; i < used; i++ {
+			b[i] = "0123456789ABCDEFabcxyz+-_ "[rapid.IntRange(0, 25).Draw(t, fmt.Sprintf("%sspecc%d", label, i))]
+		}
+	}
+	return b, true
+}
+
 // TagGen draws an optional-parameter tag: named tags, small numbers and the full 16-bit range.
 var TagGen = rapid.OneOf(rapid.SampledFrom(NamedTags), rapid.Uint16(), rapid.Uint16Range(0, 0x20), rapid.SampledFrom(NamedTags))
 
@@ -227,9 +307,29 @@ func DrawTriplets(t *rapid.T, o Opts, label string) []ref.Triplet {
 		return []ref.Triplet{}
 	}
 	tags := rapid.SliceOfNDistinct(TagGen, n, n, rapid.ID[uint16]).Draw(t, label+"tags")
+	if n >= 3 && (o.MaxTriplets == 0 || o.MaxTriplets >= 3) && rapid.IntRange(0, 5).Draw(t, label+"sarset") == 0 {
+		// the three segmentation parameters travel together
+		tags = append([]uint16{0x020C, 0x020E, 0x020F}, without(tags, 0x020C, 0x020E, 0x020F)...)[:n]
+	}
 	ts := make([]ref.Triplet, n)
 	bigBudget := 1
+	shaped := rapid.IntRange(0, 2).Draw(t, label+"specshaped") == 0 // all named tags at their prescribed sizes
+	var total byte
 	for i, tag := range tags {
+		if shaped || rapid.IntRange(0, 3).Draw(t, fmt.Sprintf("%sspec%d", label, i)) == 0 {
+			if val, ok := SpecValue(t, tag, fmt.Sprintf("%s%d", label, i)); ok {
+				// coherent segmentation counters: total 1..4 and a sequence number within it
+				if tag == 0x020E && len(val) == 1 {
+					total = byte(rapid.IntRange(1, 4).Draw(t, label+"sartotal"))
+					val[0] = total
+				}
+				if tag == 0x020F && len(val) == 1 && total > 0 {
+					val[0] = byte(rapid.IntRange(1, int(total)).Draw(t, label+"sarseq"))
+				}
+				ts[i] = ref.Triplet{Tag: tag, Val: val}
+				continue
+			}
+		}
 		var l int
 		switch c := rapid.IntRange(0, 9).Draw(t, fmt.Sprintf("%svlen%dclass", label, i)); {
 		case c == 0:
@@ -245,6 +345,22 @@ func DrawTriplets(t *rapid.T, o Opts, label string) []ref.Triplet {
 		ts[i] = ref.Triplet{Tag: tag, Val: BodyBytes(t, l, fmt.Sprintf("%sval%d", label, i))}
 	}
 	return ts
+}
+
+func without(tags []uint16, drop ...uint16) []uint16 {
+	var out []uint16
+	for _, t := range tags {
+		keep := true
+		for _, d := range drop {
+			if t == d {
+				keep = false
+			}
+		}
+		if keep {
+			out = append(out, t)
+		}
+	}
+	return out
 }
 
 // DrawVals draws a well-formed field assignment for the PDU type: declared
@@ -270,7 +386,7 @@ func DrawVals(t *rapid.T, b *Binding, o Opts) *ref.Vals {
 	for _, f := range s.Fields {
 		switch f.Kind {
 		case ref.U8:
-			v.F[f.Name] = UintW(8).Draw(t, f.Name)
+			v.F[f.Name] = U8For(f.Name).Draw(t, f.Name)
 		case ref.U16:
 			v.F[f.Name] = UintW(16).Draw(t, f.Name)
 		case ref.U32:
